@@ -186,7 +186,7 @@ func c20Literal(r *mon.Run, lit string) {
 }
 
 var (
-	c20Hostile = []string{"1e1000001", "1E-1000001", "-2.5e+1000001", "1e99999999999999999999", "1e-99999999999999999999", "1e1000000", "-", "1.", "1e", "1e+", "+1", "01", "-01.5", ".5", "1..2", "1e5e5", "1e5.5", "tru", "nul", "falsey", `"abc`, `abc"`, "", " ", "{}", "[]", "}", "1 ", " 1", "0x10", "NaN", "Infinity", "1_000", "\xff", "12345678901234567890123456789012345678901234567890e-12345"}
+	c20Hostile  = []string{"1e1000001", "1E-1000001", "-2.5e+1000001", "1e99999999999999999999", "1e-99999999999999999999", "1e1000000", "-", "1.", "1e", "1e+", "+1", "01", "-01.5", ".5", "1..2", "1e5e5", "1e5.5", "tru", "nul", "falsey", `"abc`, `abc"`, "", " ", "{}", "[]", "}", "1 ", " 1", "0x10", "NaN", "Infinity", "1_000", "\xff", "12345678901234567890123456789012345678901234567890e-12345"}
 	c20Ordinary = []string{"42", "0", "-1", "-1.5", "0.5", "1e2", "1.5e1", "12.50", "2.50E2", "1e-2", "-0.0", "123456789012345678901234567890", `"a.b"`, `"1e5"`, `"42"`, `""`, "true", "false", "null", "{", "["}
 )
 
